@@ -546,7 +546,7 @@ def all_patterns(root):
     return out
 
 
-PURE_SUFFIX = ("Deref::deref", "::as_slice", "::as_str", "::len", "Match::pattern", "Match::start", "Match::end", "::is_empty", "PatternID::as_u64", "PatternID::as_usize")
+PURE_SUFFIX = ("Deref::deref", "Index::index", "::as_slice", "::as_str", "::len", "Match::pattern", "Match::start", "Match::end", "::is_empty", "PatternID::as_u64", "PatternID::as_usize")
 
 
 def inline_pure_lets(body, params=()):
